@@ -251,7 +251,7 @@ func init() {
 		Rule: "each case builds 4 Document values (variant k mod 12 forced for the first: nil metadata, nil node list, both nil, NewDocument, no roots, many roots, cyclic containment, random cyclic containment below several top-level components (serialized 11 times), dangling root, nil maps/slices, every subset of DocumentType's optional fields, non-numeric version, plain populated; " +
 			"reflection-populated fields, unknown enum numbers, empty/duplicate/generated ids, dangling edge endpoints, arbitrary text incl. invalid UTF-8; half of them passed through proto.Marshal/Unmarshal) and serializes them in all 8 registered formats (CycloneDX 1.0-1.5, SPDX 2.3, SPDX 3 beta) " +
 			"in the schedule d0,d1,d0,d2,d3,d0 inside a supervised child: recover() catches panics, the parent attributes process deaths, the CPU/heap watchdog decides hangs; the three outputs of d0 per format must be equal after removing creation timestamps and sorting all arrays; " +
-			"the serialized document must be unchanged. Nodes also carry several identifiers competing for one output slot (one possibly empty), identifiers that look like generated ones (reserved prefix with the separator missing, empty flags, bare separators), present-but-empty map values, empty and repeated list elements. distinct = hash of (variant, d0); non-trivial = d0 has nodes or lacks metadata/node list.",
+			"the serialized document must be unchanged. Nodes also carry several identifiers competing for one output slot (one possibly empty), identifiers that look like generated ones (reserved prefix with the separator missing, empty flags, bare separators), present-but-empty map values, empty and repeated list elements. Every third block of 12 cases then changes the same Document object in place (fields edited, a node added, or refilled with another document) between two serializations per format and compares with the output of a fresh copy. distinct = hash of (variant, d0); non-trivial = d0 has nodes or lacks metadata/node list.",
 		Assumptions: []string{"nil elements inside repeated message fields are not generated (not a value protobuf decoding produces)", "determinism is compared modulo the order of ALL arrays (coarser than set-valued arrays only)"},
 		NCases: func(tier string) int {
 			if tier == "thorough" {
@@ -334,6 +334,61 @@ func c07Case(c *core.C) {
 	}
 	if c.K%8 == 5 && docs[0].GetNodeList() != nil && len(docs[0].NodeList.Nodes) > 0 {
 		c07History(c, docs[0], descs[0])
+	}
+	if (c.K/12)%3 == 1 {
+		// the same Document object, changed in place (or refilled with another document's content) and serialized
+		// again: the output must be that of a fresh copy of the value it holds now
+		d := docs[0]
+		for fi, f := range c07Formats {
+			det := map[string]any{"format": string(f), "variant": descs[0], "document": d.String()}
+			if guard(c, "write["+string(f)+"]", det, func() { _, _ = writeDoc(d, f, 2) }) {
+				return
+			}
+			how := "fields edited"
+			if (fi+c.K/4)%3 == 0 {
+				proto.Reset(d)
+				proto.Merge(d, docs[1+fi%3])
+				how = "refilled with another document"
+			} else {
+				if d.Metadata != nil {
+					d.Metadata.Name += "-changed"
+					d.Metadata.Version = fmt.Sprintf("%d", 2+fi)
+				}
+				for _, n := range d.GetNodeList().GetNodes() {
+					n.Name += fmt.Sprintf("-changed%d", fi)
+					n.Version += ".1"
+				}
+				if d.NodeList != nil && len(d.NodeList.RootElements) > 0 {
+					id := fmt.Sprintf("added-%d", fi)
+					d.NodeList.Nodes = append(d.NodeList.Nodes, &sbom.Node{Id: id, Name: id, Type: sbom.Node_PACKAGE})
+					d.NodeList.Edges = append(d.NodeList.Edges, &sbom.Edge{From: d.NodeList.RootElements[0], Type: sbom.Edge_contains, To: []string{id}})
+				}
+			}
+			det = map[string]any{"format": string(f), "variant": descs[0], "document": d.String(), "change": how}
+			var o1, o2 []byte
+			var e1, e2 error
+			if guard(c, "write["+string(f)+"]", det, func() { o1, e1 = writeDoc(d, f, 2) }) {
+				return
+			}
+			fresh := gen.Clone(d)
+			if guard(c, "write["+string(f)+"]", det, func() { o2, e2 = writeDoc(fresh, f, 2) }) {
+				return
+			}
+			c.Evals(2)
+			c.Cover("same-object-serialized-again-after-in-place-change")
+			if (e1 == nil) != (e2 == nil) {
+				c.Violatef("stale-after-in-place-change:"+string(f), det, "a document object (%s) serialized as %s gave error=%v, a fresh copy of the same value error=%v", how, f, e1, e2)
+				return
+			}
+			if e1 == nil {
+				n1, x1 := c07Normalise(o1)
+				n2, x2 := c07Normalise(o2)
+				if x1 == nil && x2 == nil && n1 != n2 {
+					c.Violatef("stale-after-in-place-change:"+string(f), det, "a document object (%s since its last serialization) serialized as %s differs from the output of a fresh copy of the same value", how, f)
+					return
+				}
+			}
+		}
 	}
 }
 
